@@ -140,7 +140,7 @@ theorem Inv2.qPushOpen {s : Streams} {k : Nat} {sv : Bool} {E : Nat → Prop} (h
     have hl : locId sv x.id = true := by rw [← hi.role, ← hsx]; exact hloc
     -- the queue gains `k`
     have hst : (s1.setQ .pendingOpen (s.getQ .pendingOpen ++ [k])).store = s1.store := setQ_store _ _ _
-    refine ⟨hi1.role, ?_, ?_, ?_, ?_, ?_⟩
+    refine ⟨hi1.role, ?_, ?_, ?_, ?_, ?_, ?_⟩
     · intro j hj
       have hj' : j ∈ s.prio.pendingOpen ++ [k] := hj
       rw [hst]
@@ -164,5 +164,6 @@ theorem Inv2.qPushOpen {s : Streams} {k : Nat} {sv : Bool} {E : Nat → Prop} (h
       have : cntP (sendCounted sv) (s1.setQ .pendingOpen (s.getQ .pendingOpen ++ [k])) = cntP (sendCounted sv) s1 := cntP_of_store_eq _ hst
       rw [this, setQ_counts]
       exact hi1.dir (by unfold ErrOK at herr ⊢; rw [setQ_counts] at herr; exact herr)
+    · exact hi1.next
 
 end H2V.Lemmas.ConnCountsP
